@@ -117,6 +117,34 @@ def _formula_tasks(c):
     return out
 
 
+def expression_tasks(spec):
+    """tasks whose variables are read "as written" by a raw expression of the problem (conditions of optional-task rules
+    and of Implies / IfThenElse, ConstraintFromExpression, user indicators)"""
+    out = set()
+
+    def walk(c):
+        if not isinstance(c, dict) or "ref" in c:
+            return
+        if "op" in c:
+            out.update(ref.expr_tasks(c))
+            return
+        for k in ("cond", "expr"):
+            if isinstance(c.get(k), dict):
+                out.update(ref.expr_tasks(c[k]))
+        for k in ("c", "c1", "c2"):
+            walk(c.get(k))
+        for k in ("cs", "then", "else"):
+            for x in c.get(k) or []:
+                walk(x)
+
+    for c in spec["constraints"]:
+        walk(c)
+    for i in spec["indicators"]:
+        if i["type"] == "FromMathExpression":
+            out.update(ref.expr_tasks(i["expr"]))
+    return out
+
+
 def delete_tasks(spec, U):
     """P \\ U, or None when the deletion is ambiguous"""
     U = set(U)
@@ -245,6 +273,7 @@ def prop_delete(ctx, case):
             cl.append(("admitted_in_original", project(spec, P2, set(U), engine.to_candidate(spec, sched))))
     seen = set()
     n_agree_sat = n_agree_unsat = 0
+    readers = expression_tasks(spec)
     for origin, c2 in cl:
         from ..runner import digest
         kx = digest(c2)
@@ -254,6 +283,11 @@ def prop_delete(ctx, case):
         if any(r["scheduled"] and (r["start"] is None or r["end"] is None) for r in c2["tasks"].values()):
             continue
         c1 = lift(spec, P2, U, c2)
+        if any(not c1["tasks"][n]["scheduled"] for n in readers):
+            # a raw expression reads the variables of a task that is not scheduled in this schedule: its value is the
+            # parking instant, an arbitrary number that changes when another optional task is deleted (unspecified)
+            ctx.event("del_expression_over_unscheduled_task_unspecified")
+            continue
         r2, _, _ = s2.admitted(c2)
         r1, _, _ = s1.admitted(c1)
         ctx.evaluation()
@@ -340,8 +374,11 @@ def replay(record):
     if ck == "C06.deletion":
         spec, seed = record["spec"], record.get("seed", 0)
         U, P2, c2 = record["probe"]["U"], record["probe"]["deleted_spec"], record["probe"]["schedule"]
+        c1 = lift(spec, P2, U, c2)
+        if any(not c1["tasks"][n]["scheduled"] for n in expression_tasks(spec)):
+            return False, "a raw expression reads an unscheduled task: unspecified"
         s1, s2 = probe.Session(spec, seed), probe.Session(P2, seed + 1)
-        r1, _, _ = s1.admitted(lift(spec, P2, U, c2))
+        r1, _, _ = s1.admitted(c1)
         r2, _, _ = s2.admitted(c2)
         if "unknown" not in (r1, r2) and r1 != r2:
             return True, f"original {r1}, deleted {r2}"
